@@ -275,7 +275,7 @@ func cfg2FA(c *RunCtx, id string, unit int) (world.Cfg, *sim.Sim, bool) {
 func init() {
 	register(&Check{
 		ID: "C02", Level: "exploration",
-		Rule: "histories with an adversary who knows every password and owns accounts/phones: directed attack templates (two SMS logins in one session at gaps around the resend limit, cross-kind pending, recover-and-login, OTP login, enrolment-then-victim) interleaved with random noise, plus random walks; after every login-type request, a session that becomes a 2FA-enabled account must come from the matching validate endpoint with a TOTP code of ITS stored secret (steps -2..+2), an SMS code the outbox shows was delivered to ITS registered number, or one of its unused recovery codes. distinct_nontrivial = distinct (flow, code class, account state, session state, mode, outcome) signatures on 2FA-enabled accounts.",
+		Rule:  "histories with an adversary who knows every password and owns accounts/phones: directed attack templates (two SMS logins in one session at gaps around the resend limit, cross-kind pending, recover-and-login, OTP login, enrolment-then-victim) interleaved with random noise, plus random walks; after every login-type request, a session that becomes a 2FA-enabled account must come from the matching validate endpoint with a TOTP code of ITS stored secret (steps -2..+2), an SMS code the outbox shows was delivered to ITS registered number, or one of its unused recovery codes. distinct_nontrivial = distinct (flow, code class, account state, session state, mode, outcome) signatures on 2FA-enabled accounts.",
 		Units: func(t string) int { return tierN(t, 800, 25000) },
 		Run: func(c *RunCtx, unit int) {
 			_, s, ok := cfg2FA(c, "C02", unit)
